@@ -59,6 +59,7 @@ class ReachLeg(T.TravLeg):
 class C06(Prop):
     pid = "C06"
     legs = [ReachLeg()]
-    assumptions = ["ff_via / ff_result are pure; graphs whose followed links have both ends assigned are judged by the reachability "
+    assumptions = ["the recursive variant is exercised on graphs far below the interpreter's recursion limit (a path of about 990 vertices exhausts the default limit: documented nature of dft_recursive, not modelled)",
+                   "ff_via / ff_result are pure; graphs whose followed links have both ends assigned are judged by the reachability "
                    "oracle, half-assigned edges are covered by the tie (model: None neighbour skipped inside a universe, "
                    "AttributeError without one)"]
